@@ -750,6 +750,7 @@ mod xen {
         let mut windows_total = 0u64;
         let mut fd_runs = 0u64;
         let mut derived_runs = 0u64;
+        let mut huge_guards = 0u64;
         for (kind, pages) in [("grant-on-demand", 2usize), ("grant-on-demand", 3), ("grant-in-advance", 2), ("foreign", 2), ("unix", 2)] {
             let len = pages * 4096;
             // a foreign mapping always starts at offset 0 of the device file
@@ -867,6 +868,69 @@ mod xen {
                 Err(e) => ctx.machinery(&format!("cannot create the large on-demand region: {}", e)),
             }
         }
+        // one on-demand region of more than 2^16 pages: while a guard is alive, the mapping behind
+        // it spans every byte of the accessor, also when that takes more than 2^16 grant
+        // references in one request (the backing file is sparse; nothing is touched)
+        {
+            use crate::interpose::{net_mapped, peek_log, start_recording, stop_recording};
+            use vm_memory::VolatileMemory;
+            let pages = (1usize << 16) + 3;
+            let emu = Emu::new(pages + 16);
+            let len = pages * 4096;
+            match emu.grant_region(8, len, true) {
+                Ok(reg) => {
+                    emu.take_log();
+                    let vs = reg.as_volatile_slice().unwrap();
+                    let m256 = 1usize << 28;
+                    for (off, n) in [(0x800usize, m256 + 0x1000), (0, len), (0x1000, m256), (0x1000, m256 + 1), (0xfff, m256 + 2), (0, m256 - 1), (len - m256 - 1, m256 + 1)] {
+                        ctx.case(true);
+                        huge_guards += 1;
+                        let s = match vs.subslice(off, n) {
+                            Ok(s) => s,
+                            Err(e) => {
+                                ctx.fail("C17/xen/grant-on-demand/huge-region/accessor-refused", &format!("subslice({:#x}, {:#x}) of a region of {:#x} bytes: {:?}", off, n, len, e), json!({"offset": off, "len": n}));
+                                continue;
+                            }
+                        };
+                        start_recording();
+                        let describe = || ("C17/xen/grant-on-demand/huge-region/crash".to_string(), format!("guard of [{:#x},+{:#x})", off, n), json!({"offset": off, "len": n}));
+                        let res = crate::crash::guarded(ctx, &describe, || {
+                            let g = s.ptr_guard();
+                            let (p, l) = (g.as_ptr() as usize, g.len());
+                            let space = net_mapped(&peek_log());
+                            let covered = space.iter().any(|(a, b)| *a <= p && p + l <= *b);
+                            let first_last = if covered && l > 0 {
+                                // SAFETY: inside a live mapping (just checked); reading the sparse file's zero pages
+                                unsafe { (std::ptr::read_volatile(g.as_ptr()), std::ptr::read_volatile(g.as_ptr().add(l - 1))) }
+                            } else {
+                                (0, 0)
+                            };
+                            let _ = first_last;
+                            drop(g);
+                            (p, l, covered, space)
+                        });
+                        let log = stop_recording();
+                        if let Some((p, l, covered, space)) = res {
+                            if l != n || !covered {
+                                ctx.fail(
+                                    "C17/xen/grant-on-demand/huge-region/guard-not-covered",
+                                    &format!("accessor [{:#x},+{:#x}) of an on-demand region of {} pages: the guard reports {:#x} bytes at {:#x}, the mappings live while it is held are {:x?}", off, n, pages, l, p, space),
+                                    json!({"offset": off, "len": n, "region_pages": pages}),
+                                );
+                            }
+                        }
+                        if !net_mapped(&log).is_empty() || !emu.live().is_empty() {
+                            ctx.fail("C17/xen/grant-on-demand/huge-region/window-left", &format!("after the guard of [{:#x},+{:#x}) was dropped: mappings {:x?}, device windows {:?}", off, n, net_mapped(&log), emu.live()), json!({"offset": off, "len": n}));
+                            emu.state.borrow_mut().live.clear();
+                        }
+                        emu.take_log();
+                    }
+                    drop(reg);
+                }
+                Err(e) => ctx.machinery(&format!("cannot create the on-demand region of 2^16+3 pages: {}", e)),
+            }
+        }
+        ctx.extra("guards_on_a_region_of_more_than_65536_pages", json!(huge_guards));
         ctx.extra("max_simultaneous_windows_sum", json!(windows_total));
         ctx.extra("injected_fault_runs", json!(fault_runs));
         ctx.extra("descriptor_transfers", json!(fd_runs));
@@ -878,7 +942,7 @@ mod xen {
 pub fn run(tier: Tier, replay: Option<String>) -> i32 {
     let ctx = crate::new_ctx("C17", tier, "model_checking", &replay);
     let build = if cfg!(feature = "xen") { "xen" } else { "std" };
-    ctx.set_rule("(a) guards: every accessor kind (VolatileSlice at offsets 0..=16 x lengths 0..=16; VolatileRef and VolatileArrayRef for 23 element types covering every size 1..16, offsets 0..=16, element counts 0..=9; to_slice and ref_at derivatives): ptr_guard/ptr_guard_mut len == bytes covered and pointer == first byte. (b) Xen build, emulated gntdev/privcmd (link-time interposed ioctl + mmap): on on-demand grant regions of 2 and 3 pages every access operation of the container alphabet at offsets {0,1,4090..4100,8190..8193,last} and lengths crossing 0, 1 and 2 page boundaries, 12 element types, arrays whose byte length exceeds their element count, and all histories of up to 3 operations over a boundary alphabet (state = region contents, carried over): each operation is first probed in a forked child (a dereference outside any window faults), then executed; the windows requested from the device must cover every page of the bytes the reference model says are touched, the data must be right (read back from the backing file), and no window may remain. Environment faults, deviation bound 1: every operation is re-run once per mmap call and once per map-grant request it makes with exactly that call failing; afterwards no process mapping and no device window may remain, the device protocol must have been respected (the emulated gntdev hands out first-fit indexes unrelated to guest addresses and serves mmap only for an exactly matching live window), and a complete success may not be reported with wrong data. Copies from ordinary memory INTO the region through the slice-to-slice and array-to-slice forms. The same for slices derived from the region's slice through every derivation the API offers (split_at either half, subslice, offset, get_slice, array and reference to_slice, two-step chains): the operations run through the derived accessor with the same oracles. Advance-mapped grant, foreign and UNIX regions: same operations, no device request allowed. States/transitions: one transition per operation executed on the real region.");
+    ctx.set_rule("(a) guards: every accessor kind (VolatileSlice at offsets 0..=16 x lengths 0..=16; VolatileRef and VolatileArrayRef for 23 element types covering every size 1..16, offsets 0..=16, element counts 0..=9; to_slice and ref_at derivatives): ptr_guard/ptr_guard_mut len == bytes covered and pointer == first byte. (b) Xen build, emulated gntdev/privcmd (link-time interposed ioctl + mmap): on on-demand grant regions of 2 and 3 pages every access operation of the container alphabet at offsets {0,1,4090..4100,8190..8193,last} and lengths crossing 0, 1 and 2 page boundaries, 12 element types, arrays whose byte length exceeds their element count, and all histories of up to 3 operations over a boundary alphabet (state = region contents, carried over): each operation is first probed in a forked child (a dereference outside any window faults), then executed; the windows requested from the device must cover every page of the bytes the reference model says are touched, the data must be right (read back from the backing file), and no window may remain. Environment faults, deviation bound 1: every operation is re-run once per mmap call and once per map-grant request it makes with exactly that call failing; afterwards no process mapping and no device window may remain, the device protocol must have been respected (the emulated gntdev hands out first-fit indexes unrelated to guest addresses and serves mmap only for an exactly matching live window), and a complete success may not be reported with wrong data. Copies from ordinary memory INTO the region through the slice-to-slice and array-to-slice forms. The same for slices derived from the region's slice through every derivation the API offers (split_at either half, subslice, offset, get_slice, array and reference to_slice, two-step chains): the operations run through the derived accessor with the same oracles. Advance-mapped grant, foreign and UNIX regions: same operations, no device request allowed. One on-demand region of 2^16+3 pages over a sparse file: for seven accessors around 256 MiB (offsets in and off the page grid, lengths 2^28-1 .. 2^28+0x1000 and the whole region) the mapping that is live while the guard is held spans every byte of the guard, and nothing is left afterwards. States/transitions: one transition per operation executed on the real region.");
     ctx.assume("gntdev/privcmd are emulated at the ioctl contract level (grant reference r = file offset r*4096)");
     if ctx.replay_of.is_some() {
         println!("replay: deterministic enumeration; re-running it");
